@@ -58,3 +58,17 @@ Fixpoint reads_before_w (evs:list event) (j:nat) : nat :=
 Definition queued_before (evs:list event) (nrep:list nat) (j:nat) : nat :=
   fold_left Nat.add (firstn j nrep) 0 - reads_before_w evs j.
 Definition count_w (evs:list event) : nat := List.length (filter (fun e => match e with Ev EW _ _ => true | _ => false end) evs).
+
+(* is the downlink message that has q others queued in front of it when the j-th uplink message is written ever read? *)
+Fixpoint nth_read_exists (evs:list event) (q:nat) : bool :=
+  match evs with
+  | [] => false
+  | Ev ER _ _ :: r => match q with O => true | S q' => nth_read_exists r q' end
+  | _ :: r => nth_read_exists r q
+  end.
+Fixpoint is_read (evs:list event) (j q:nat) : bool :=
+  match evs with
+  | [] => false
+  | Ev EW _ _ :: r => match j with O => nth_read_exists r q | S j' => is_read r j' q end
+  | _ :: r => is_read r j q
+  end.
